@@ -235,6 +235,8 @@ where
     entity_identifiers: &'a mut (*mut entity::Identifier, usize),
     components: &'a mut [(*mut u8, usize)],
     length: usize,
+    /// Set once every value of the row has been stored in the columns.
+    complete: &'a mut bool,
 }
 
 impl<'a, 'de, R> DeserializeRow<'a, 'de, R>
@@ -250,6 +252,7 @@ where
         entity_identifiers: &'a mut (*mut entity::Identifier, usize),
         components: &'a mut [(*mut u8, usize)],
         length: usize,
+        complete: &'a mut bool,
     ) -> Self {
         Self {
             lifetime: PhantomData,
@@ -259,6 +262,7 @@ where
             entity_identifiers,
             components,
             length,
+            complete,
         }
     }
 }
@@ -334,6 +338,8 @@ where
                         self.0.identifier,
                     )
                 }?;
+
+                *self.0.complete = true;
 
                 Ok(())
             }
@@ -416,6 +422,7 @@ where
                 let mut vec_length = 0;
 
                 for i in 0..self.0.length {
+                    let mut row_complete = false;
                     let result = seq.next_element_seed(
                         // SAFETY: `entity_identifiers` and `components` both contain the raw parts
                         // for valid `Vec`s of length `vec_length`.
@@ -425,10 +432,17 @@ where
                                 &mut entity_identifiers,
                                 &mut components,
                                 vec_length,
+                                &mut row_complete,
                             )
                         },
                     );
                     if let Err(error) = result {
+                        if row_complete {
+                            // The error was raised after the whole row had been stored (for
+                            // example, because of trailing values in the row), so the columns
+                            // are valid `Vec`s of one more row, which is freed with the others.
+                            vec_length += 1;
+                        }
                         drop(
                             // SAFETY: `entity_identifiers` contains the raw parts for a valid
                             // `Vec<entity::Identifier>` of size `vec_length`.
